@@ -296,3 +296,86 @@ def static_table_rules(r, facts, which=('get', 'index')):
                 else:
                     r.check(rn == name, key, 'src/hpack/table.rs', 'index_static(%s: *) = (%d, name only); RFC entry %d = (%s, ..)' % (name, idx, idx, rn))
             r.floor(n, 60, 'indexed paths of index_static')
+
+
+# ------------------------------------------------------------------------------------------------ frame flag / stream id predicates
+
+FLAG_PREDICATES = {
+    # RFC 9113 section 6.1 (DATA), 6.2 (HEADERS), 6.5 (SETTINGS), 6.6 (PUSH_PROMISE): flag bit per frame type
+    'frame::data::DataFlags': {'mask': 0x1 | 0x8, 'is': {'is_end_stream': 0x1, 'is_padded': 0x8}, 'set': {'set_end_stream': 0x1, 'set_padded': 0x8}, 'unset': {'unset_end_stream': 0x1}},
+    'frame::headers::HeadersFlag': {'mask': 0x1 | 0x4 | 0x8 | 0x20, 'is': {'is_end_stream': 0x1, 'is_end_headers': 0x4, 'is_padded': 0x8, 'is_priority': 0x20},
+                                    'set': {'set_end_stream': 0x1, 'set_end_headers': 0x4}, 'unset': {}},
+    'frame::headers::PushPromiseFlag': {'mask': 0x4 | 0x8, 'is': {'is_end_headers': 0x4, 'is_padded': 0x8}, 'set': {'set_end_headers': 0x4}, 'unset': {}},
+    'frame::settings::SettingsFlags': {'mask': 0x1, 'is': {'is_ack': 0x1}, 'set': {}, 'unset': {}},
+}
+
+
+def flag_predicates(r, F):
+    """every flag predicate / setter / loader of the four flag types, evaluated on all 256 flag octets by abstract
+    interpretation of its MIR, equals the RFC 9113 bit: is_X(b) = (b & X == X), set_X(b) = b | X, load(b) keeps every defined bit and invents none"""
+    from . import absint
+    from .absint import I, TOP
+    it = absint.Interp(F)
+    n = 0
+    for adt, spec in sorted(FLAG_PREDICATES.items()):
+        def obj(b):
+            return ('ref', ('s', adt, (('0', I(b)),)))
+
+        def final(fin):
+            v = dict(fin).get(1)
+            try:
+                return dict(v[1][2])['0'][1]
+            except Exception:
+                return None
+        for name, bit in sorted(spec['is'].items()):
+            f = F.fn(adt + '::' + name)
+            if not f:
+                continue
+            bad = [b for b in range(256) if set(ret for ret, fin in it.run(f, {1: obj(b)})) != {('b', (b & bit) == bit)}]
+            n += 1
+            r.check(not bad, 'flag|%s::%s' % (adt.split('::')[-1], name), f.file, '%s::%s(b) = (b & 0x%x == 0x%x) on all 256 octets%s' % (adt.split('::')[-1], name, bit, bit, '' if not bad else ' -- differs at 0x%02x' % bad[0]))
+        for kind in ('set', 'unset'):
+            for name, bit in sorted(spec[kind].items()):
+                f = F.fn(adt + '::' + name)
+                if not f:
+                    continue
+                want = (lambda b: b | bit) if kind == 'set' else (lambda b: b & ~bit & 0xff)
+                bad = [b for b in range(256) if set(final(fin) for ret, fin in it.run(f, {1: obj(b)})) != {want(b)}]
+                n += 1
+                r.check(not bad, 'flag|%s::%s' % (adt.split('::')[-1], name), f.file, '%s::%s %s bit 0x%x and nothing else, on all 256 octets%s' % (adt.split('::')[-1], name, 'sets' if kind == 'set' else 'clears', bit, '' if not bad else ' -- differs at 0x%02x' % bad[0]))
+        f = F.fn(adt + '::load')
+        if f:
+            def loaded(ret):
+                try:
+                    return dict(ret[2])['0'][1]
+                except Exception:
+                    return None
+            def fine(b):
+                got = set(loaded(ret) for ret, fin in it.run(f, {1: I(b)}))
+                if len(got) != 1 or None in got:
+                    return False
+                g = next(iter(got))
+                return (g & spec['mask']) == (b & spec['mask']) and (g & ~b) == 0
+            bad = [b for b in range(256) if not fine(b)]
+            n += 1
+            r.check(not bad, 'flag|%s::load' % adt.split('::')[-1], f.file, '%s::load keeps every defined bit (0x%x) and invents none%s' % (adt.split('::')[-1], spec['mask'], '' if not bad else ' -- differs at 0x%02x' % bad[0]))
+    r.floor(n, 16, 'flag predicates / setters / loaders evaluated')
+
+
+def stream_id_predicates(r, F):
+    """StreamId parity predicates (RFC 9113 section 5.1.1): client-initiated = odd, server-initiated = even and non-zero, zero = 0"""
+    from . import absint
+    from .absint import I
+    it = absint.Interp(F)
+    adt = 'frame::stream_id::StreamId'
+    ref = {'is_client_initiated': lambda i: i % 2 == 1, 'is_server_initiated': lambda i: i != 0 and i % 2 == 0, 'is_zero': lambda i: i == 0}
+    vals = [0, 1, 2, 3, 4, 5, 2 ** 31 - 2, 2 ** 31 - 1]
+    n = 0
+    for name, fn in sorted(ref.items()):
+        f = r.fn(adt + '::' + name)
+        if not f:
+            continue
+        bad = [v for v in vals if set(ret for ret, fin in it.run(f, {1: ('ref', ('s', adt, (('0', I(v)),)))})) != {('b', fn(v))}]
+        n += 1
+        r.check(not bad, 'stream-id|%s' % name, f.file, 'StreamId::%s agrees with RFC 9113 5.1.1 on %s%s' % (name, vals, '' if not bad else ' -- differs at %d' % bad[0]))
+    r.floor(n, 3, 'stream id predicates evaluated')
